@@ -47,8 +47,8 @@ func init() {
 		Meta: func(tier string) fw.Meta {
 			na, nb := c07Sizes(tier)
 			return fw.Meta{N: na + nb + c07FaultCases(tier), Level: "fault_enumeration", Chunk: 20, CaseTimeoutS: 600, MinNT: 300,
-				Rule:        "(a) seeded programs of 1..80 Append/AppendSync/Rotate calls with records nil/empty/1..3x the file size limit, limits {9,64,1024,1MiB}, writer buffers {64,4096,default}, 4 compression types; a fresh Replay must deliver exactly the appended sequence (nil and empty both replay as empty/nil payloads of length 0). (b) WAL-only sessions under strace (64-byte or 4 KiB writer buffer so that buffer flushes cut records, records up to 1 KiB, forced and size-triggered rotations) with INV/ACK markers: crash image after every mutating system call; Replay in a fresh process must succeed and deliver a prefix of the appended sequence containing every AppendSync acknowledged before the image. (c) over the same log: between the invocation and the acknowledgement of every AppendSync at least one write reached a WAL file and at the acknowledgement the WAL file written last (the one that received the record) has no written-but-unsynced bytes. (d) programs whose appender meets a failing write(2) (RLIMIT_FSIZE lowered in a sub-process for 1..3 calls or as a per-file cap; EFBIG from the kernel through the real writers, nothing killed) and goes on appending, retrying and rotating: a fresh Replay must succeed and deliver the attempted appends minus failed ones, cut off at some point, with no nil-returning append missing before a delivered one and no acknowledged synchronous append missing at all. evaluations = programs + distinct images; non-trivial = program with a rotation and >=3 records / traced session with >=50 images",
-				MinObs:      map[string]int64{"programs_replayed": 1000, "rotations_size_triggered": 500, "rotations_forced": 300, "records_larger_than_limit": 200, "wal_sessions_traced": 4, "wal_images_replayed": 1500, "sync_appends_checked_for_fsync": 300, "wal_images_with_cut_record": 50, "wal_fault_programs": 300, "wal_fault_programs_with_a_failed_write": 150, "wal_rotations_attempted_after_a_failed_write": 100, "wal_failed_write_inside_a_record_larger_than_the_buffer": 5},
+				Rule:        "(a) seeded programs of 1..80 Append/AppendSync/Rotate calls with records nil/empty/1..3x the file size limit, limits {9,64,1024,1MiB}, writer buffers {64,4096,default}, 4 compression types; replays through the still-open log object in between (prefix of the appended records containing everything synced or rotated out so far), at the end a Replay through the same object and a fresh one must deliver exactly the appended sequence (nil and empty both replay as empty/nil payloads of length 0). (b) WAL-only sessions under strace (64-byte or 4 KiB writer buffer so that buffer flushes cut records, records up to 1 KiB, forced and size-triggered rotations) with INV/ACK markers: crash image after every mutating system call; Replay in a fresh process must succeed and deliver a prefix of the appended sequence containing every AppendSync acknowledged before the image. (c) over the same log: between the invocation and the acknowledgement of every AppendSync at least one write reached a WAL file and at the acknowledgement the WAL file written last (the one that received the record) has no written-but-unsynced bytes. (d) programs whose appender meets a failing write(2) (RLIMIT_FSIZE lowered in a sub-process for 1..3 calls or as a per-file cap; EFBIG from the kernel through the real writers, nothing killed) and goes on appending, retrying and rotating: a fresh Replay must succeed and deliver the attempted appends minus failed ones, cut off at some point, with no nil-returning append missing before a delivered one and no acknowledged synchronous append missing at all. evaluations = programs + distinct images; non-trivial = program with a rotation and >=3 records / traced session with >=50 images",
+				MinObs:      map[string]int64{"programs_replayed": 1000, "replays_through_the_open_log_object": 1000, "rotations_size_triggered": 500, "rotations_forced": 300, "records_larger_than_limit": 200, "wal_sessions_traced": 4, "wal_images_replayed": 1500, "sync_appends_checked_for_fsync": 300, "wal_images_with_cut_record": 50, "wal_fault_programs": 300, "wal_fault_programs_with_a_failed_write": 150, "wal_rotations_attempted_after_a_failed_write": 100, "wal_failed_write_inside_a_record_larger_than_the_buffer": 5},
 				Assumptions: []string{"kill -9 model as in C02", "nil and empty records are not distinguished by the WAL's consumers (both have length 0)"},
 			}
 		},
@@ -90,8 +90,21 @@ func runC07(c *fw.Case) {
 	wbuf := gen.Pick(r, 64, 4096, 0)
 	comp := r.Intn(4)
 	dir := filepath.Join(c.Dir, "wal")
+	// every 20th program logs through the direct-I/O writer (block-aligned writes of a whole 8 KiB buffer, zero-padded
+	// tail; Append only — AppendSync is refused by that writer, as documented) on a real file system
+	direct := c.Idx%20 == 7
+	if direct {
+		dir = filepath.Join(c.DiskDir(), "wal")
+		c.Obs("programs_with_the_direct_io_writer", 1)
+	}
 	_ = os.MkdirAll(dir, 0755)
 	opts, err := walOpts(dir, limit, wbuf, comp)
+	if direct {
+		opts, err = wal.NewWriteAheadLogOptions(wal.BasePath(dir), wal.MaximumWalFileSizeBytes(limit),
+			wal.WriterFactory(func(path string) (recordio.WriterI, error) {
+				return recordio.NewFileWriter(recordio.Path(path), recordio.CompressionType(comp), recordio.DirectIO(), recordio.BufferSizeBytes(8192))
+			}))
+	}
 	if err != nil {
 		c.Violate("harness/walopts", "%v", err)
 		return
@@ -101,13 +114,37 @@ func runC07(c *fw.Case) {
 		c.Violate("wal/create-error", "%v", err)
 		return
 	}
-	cfg := fmt.Sprintf("limit=%d wbuf=%d comp=%d", limit, wbuf, comp)
+	cfg := fmt.Sprintf("limit=%d wbuf=%d comp=%d directIO=%v", limit, wbuf, comp, direct)
 	c.HashAdd(cfg)
 	var want []string
 	var prog []string
 	steps := 1 + r.Intn(80)
 	rotations, big := 0, 0
+	durable := 0 // number of appended records that are on disk for sure (everything up to the last AppendSync / Rotate)
 	for s := 0; s < steps; s++ {
+		// now and then the log is replayed through the SAME log object while it is still being appended to: what it
+		// delivers must be a prefix of the records appended so far that contains everything made durable so far
+		if r.Intn(12) == 0 {
+			var got []string
+			err := w.Replay(func(rec []byte) error {
+				got = append(got, recHash(rec))
+				return nil
+			})
+			c.Obs("replays_through_the_open_log_object", 1)
+			if err != nil {
+				c.Violate("wal/replay-error/open-log", "%s: Replay through the open log object failed: %v\n%v", cfg, err, prog)
+				return
+			}
+			if len(got) > len(want) || strings.Join(got, ",") != strings.Join(want[:len(got)], ",") {
+				c.Violate("wal/replay-differs/open-log/no-prefix", "%s: Replay through the open log object delivered %d records that are no prefix of the %d appended\n got: %v\nwant: %v\n%v", cfg, len(got), len(want), tailS(got, 8), tailS(want, 8), prog)
+				return
+			}
+			if len(got) < durable {
+				c.Violate("wal/replay-differs/open-log/durable-records-missing", "%s: Replay through the open log object delivered %d records, %d were already synced or rotated out (rotations so far %d)\n%v", cfg, len(got), durable, rotations, prog)
+				return
+			}
+			prog = append(prog, fmt.Sprintf("Replay=%d", len(got)))
+		}
 		switch x := r.Intn(10); {
 		case x == 0:
 			filesBefore := countWalFiles(dir)
@@ -118,6 +155,7 @@ func runC07(c *fw.Case) {
 			}
 			prog = append(prog, "Rotate")
 			c.HashAdd("rot")
+			durable = len(want)
 			rotations++
 			c.Obs("rotations_forced", 1)
 			if p == "" || countWalFiles(dir) != filesBefore+1 {
@@ -147,6 +185,9 @@ func runC07(c *fw.Case) {
 			c.HashAdd(rec)
 			filesBefore := countWalFiles(dir)
 			var err error
+			if direct && x < 4 {
+				x = 4
+			}
 			if x < 4 {
 				err = w.AppendSync(rec)
 				prog = append(prog, fmt.Sprintf("AppendSync(%s)", fw.Hex(rec)))
@@ -163,6 +204,9 @@ func runC07(c *fw.Case) {
 				c.Obs("rotations_size_triggered", 1)
 			}
 			want = append(want, recHash(rec))
+			if x < 4 {
+				durable = len(want)
+			}
 		}
 		if len(prog) > 50 {
 			prog = prog[1:]
@@ -171,6 +215,18 @@ func runC07(c *fw.Case) {
 	if err := w.Close(); err != nil {
 		c.Violate("wal/close-error", "%s: %v", cfg, err)
 		return
+	}
+	// the closed log is replayed twice: through the log object that wrote it (and may have replayed before) and afresh
+	{
+		var got []string
+		err := w.Replay(func(rec []byte) error {
+			got = append(got, recHash(rec))
+			return nil
+		})
+		if err != nil || strings.Join(got, ",") != strings.Join(want, ",") {
+			c.Violate("wal/replay-differs/same-object-after-close", "%s: Replay through the log object that wrote the log: err=%v, %d records, appended %d (rotations %d)\n%v", cfg, err, len(got), len(want), rotations, prog)
+			return
+		}
 	}
 	rp, err := wal.NewReplayer(opts)
 	if err != nil {
